@@ -187,6 +187,15 @@ func (err *wrapError) Error() string {
 }
 
 func (loc *SourceLoc) writeTo(w stringWriter, indent string) {
+	loc.writeChains(w, indent, nil)
+}
+
+// Writes the location and the ways in which its file came to be included.
+// Those of a file which several files include are written out where the
+// file is first met.  Written out everywhere, their number would double with
+// every such file on the way.
+func (loc *SourceLoc) writeChains(w stringWriter, indent string,
+	seen map[*SourceFile]struct{}) {
 	if loc.File == nil ||
 		loc.File.FullPath == "" && len(loc.File.IncludedFrom) == 0 {
 		fmt.Fprintf(w, "line %d", loc.Line)
@@ -197,14 +206,21 @@ func (loc *SourceLoc) writeTo(w stringWriter, indent string) {
 		fmt.Fprintf(w, "%s:%d\n%s    included from ",
 			loc.File.FullPath, loc.Line,
 			indent)
-		loc.File.IncludedFrom[0].writeTo(w, indent)
+		loc.File.IncludedFrom[0].writeChains(w, indent, seen)
+	} else if _, ok := seen[loc.File]; ok {
+		fmt.Fprintf(w, "%s:%d (included as shown above)",
+			loc.File.FullPath, loc.Line)
 	} else {
+		if seen == nil {
+			seen = make(map[*SourceFile]struct{})
+		}
+		seen[loc.File] = struct{}{}
 		newIndent := indent + "    "
 		fmt.Fprintf(w, "%s:%d included from:",
 			loc.File.FullPath, loc.Line)
 		for i, inc := range loc.File.IncludedFrom {
 			fmt.Fprintf(w, "\n%s[%d] ", newIndent, i)
-			inc.writeTo(w, newIndent)
+			inc.writeChains(w, newIndent, seen)
 		}
 	}
 }
